@@ -49,7 +49,7 @@ func runKeys() []runKey {
 		{"PotMineralisation", "int", func(r *vh.Rng, p *proj.Project) string { return strconv.Itoa(r.Range(0, 2)) }, true},
 		{"CO2method", "int", func(r *vh.Rng, p *proj.Project) string { return strconv.Itoa(r.Range(1, 3)) }, true},
 		{"ETpot", "int", func(r *vh.Rng, p *proj.Project) string { return strconv.Itoa(r.Range(2, 4)) }, true},
-		{"ResultFileExt", "text", func(r *vh.Rng, p *proj.Project) string { return []string{"csv", "RES", "out", "txt", "dat"}[r.Intn(5)] }, true},
+		{"ResultFileExt", "text", func(r *vh.Rng, p *proj.Project) string { return []string{"csv", "RES", "out", "txt", "dat", "", ""}[r.Intn(7)] }, true}, // an empty text is a value too: it overrides the lower layer and is then resolved by the result format
 		{"EndDate", "text", func(r *vh.Rng, p *proj.Project) string {
 			lo, hi := p.Start().Z()+40, p.End().Z()
 			if hi < lo {
